@@ -24,6 +24,7 @@ Definition E_END64 := 13.
 Definition E_OFFSET := 14.    (* negative offset given to ReadAt / Seek *)
 Definition E_TAR := 15.       (* negative size in the tar header *)
 Definition E_XAP := 16.       (* "invalid xap file" *)
+Definition E_TRAILER := 17.   (* "invalid zip trailer size" *)
 
 (* ------------------------------------------------------------------ fixed-layout structs (encoding/binary, little endian) *)
 Fixpoint enc_struct (ws vs : list Z) : bytes :=
@@ -253,22 +254,37 @@ Definition cab_protected (g : bytes) : bytes :=
 (* ================================================================== XAP: the faithful model *)
 Definition to_i64 (n : Z) : Z := if n >=? 2 ^ 63 then n - 2 ^ 64 else n.
 
-(* zipslicer.FindDirectory: the 42-byte window (zip64 locator + end record) at the very end of the file *)
-Definition zip_window (f : bytes) : result bytes :=
+(* signxap.TrailerSize: the number of bytes at the end of the file that the XAP transform treats as an existing signature.
+   The four return statements of the Go function are xap_ts_returns, in source order. *)
+Definition xap_trailer_size (f : bytes) : Z :=
   let size := zlen f in
+  if xap_ts_too_short size then nth 0 (xap_ts_returns 0) 0 else
+  let off := xap_ts_trailer_off size in
+  (* binary.Read from the section [off, off+len): negative offset, short section *)
+  if (off <? 0) || (size - off <? xaptr_size) || (xap_ts_trailer_len <? xaptr_size) then nth 1 (xap_ts_returns 0) 0 else
+  let tr := dec_struct xaptr_widths (zslice off (off + xaptr_size) f) in
+  let t := fld xaptr_ix_TrailerSize tr in
+  if xap_ts_no_trailer (fld xaptr_ix_Magic tr) t size then nth 2 (xap_ts_returns t) 0 else nth 3 (xap_ts_returns t) 0.
+(* signers/xap xapTransformer.GetReader: trailer := signxap.TrailerSize(f, size) is handed to ZipToTarTrailer *)
+Definition xap_tf_trailer (f : bytes) : Z :=
+  if xap_tf_trailer_from_trailer_size && xap_tf_passes_trailer && xap_tf_same_file then xap_trailer_size f else zip_tar_plain_trailer.
+
+(* zipslicer.FindDirectory(r, size): the 42-byte window (zip64 locator + end record) that ends at `size`; the reads are
+   positioned reads on the whole file f, which may be longer than size (a signature trailer follows the zip) *)
+Definition zip_window (f : bytes) (size : Z) : result bytes :=
   let pos := zip_find_pos size in
   let wlen := zip_directory64LocLen + zip_directoryEndLen in
   if zip_find_short pos size then
     (* archive shorter than the window: buf = endb[-pos:], read from offset 0; the front of the window stays zero *)
     let skip := zip_find_short_skip pos in
     let p := zip_find_short_pos in
-    if size - p <? wlen - skip then Err E_SHORT
+    if zlen f - p <? wlen - skip then Err E_SHORT
     else Ok (repeat 0 (Z.to_nat skip) ++ zslice p (p + (wlen - skip)) f)
   else if pos <? 0 then Err E_OFFSET
-  else if size - pos <? wlen then Err E_SHORT
+  else if zlen f - pos <? wlen then Err E_SHORT
   else Ok (zslice pos (pos + wlen) f).
-Definition xap_find_dir (f : bytes) : result Z :=
-  w <- zip_window f ;;
+Definition zip_find_dir (f : bytes) (size : Z) : result Z :=
+  w <- zip_window f size ;;
   let loc := dec_struct ziploc_widths (ztake ziploc_size w) in
   let en := dec_struct zipend_widths (zdrop ziploc_size w) in
   if zip_no_end_record (fld zipend_ix_Signature en) then Err E_NODIR else
@@ -279,11 +295,20 @@ Definition xap_find_dir (f : bytes) : result Z :=
     let e64 := dec_struct zipend64_widths (zslice off (off + zip_directory64EndLen) f) in
     if zip_no_end64 (fld zipend64_ix_Signature e64) then Err E_END64 else Ok (to_i64 (fld zipend64_ix_CDOffset e64))
   else Ok (fld zipend_ix_CDOffset en).
-(* zipslicer.ZipToTar: member 1 = the bytes from the directory offset to the end, member 2 = the whole file *)
+(* what the XAP transform looks for: the end record in the first size - trailer bytes *)
+Definition xap_find_dir (f : bytes) : result Z :=
+  zip_find_dir f (zip_tar_find_size (zlen f) (xap_tf_trailer f)).
+(* zipslicer.ZipToTarTrailer: member 1 = the bytes from the directory offset to the end of the FILE (the trailer stays part
+   of it), member 2 = the whole file; the tar transport is the identity on the two members *)
 Definition xap_tar (f : bytes) : result (bytes * Z) :=
+  let size := zlen f in
+  if zip_tar_bad_trailer (xap_tf_trailer f) size then Err E_TRAILER else
   d <- xap_find_dir f ;;
-  if d <? 0 then Err E_OFFSET else
-  if zip_tar_cd_size (zlen f) d <? 0 then Err E_TAR else Ok (zdrop d f, zip_tar_zip_size (zlen f) d).
+  if zip_tar_cd_from d <? 0 then Err E_OFFSET else
+  if zip_tar_cd_size size d <? 0 then Err E_TAR else
+  if (zip_tar_cd_len size d <? zip_tar_cd_size size d) || (zip_tar_zip_len size <? zip_tar_zip_size size d)
+     || (size <? zip_tar_zip_from + zip_tar_zip_size size d) || negb (zip_tar_zip_from =? 0) then Err E_SHORT else
+  Ok (zslice (zip_tar_cd_from d) (zip_tar_cd_from d + zip_tar_cd_size size d) f, zip_tar_zip_size size d).
 (* signxap.removeSignature: slices cd[size-10:size] (panics when shorter), strips a trailer it recognises by magic *)
 Definition xap_remove_signature (cd : bytes) : result bytes :=
   let size := zlen cd in
@@ -344,16 +369,16 @@ Definition xap_vparse (g : bytes) : result (option (Z * bytes)) :=
     if size - boff <? n then Err E_SHORT else Ok (Some (body, zslice boff (boff + n) g)).
 
 Definition xap_extract (g : bytes) : result (option bytes) := r <- xap_vparse g ;; Ok (option_map snd r).
-Definition xap_hashin_sign (f : bytes) : result bytes := d <- xap_digest f ;; Ok (x_pre d).
-(* the digest input of a file: the verifier's for a file that carries a trailer, the signer's otherwise *)
-Definition xap_hashin (f : bytes) : result bytes :=
-  r <- xap_vparse f ;;
+(* the digest input of the SIGNER (DigestXapTar behind the XAP transform): an existing trailer is stripped *)
+Definition xap_hashin (f : bytes) : result bytes := d <- xap_digest f ;; Ok (x_pre d).
+(* the digest input of the VERIFIER: the bytes in front of the signature block; defined only for files that carry one *)
+Definition E_NOTSIGNED := 18.
+Definition xap_vhashin (g : bytes) : result bytes :=
+  r <- xap_vparse g ;;
   match r with
-  | Some (body, _) => Ok (zslice xap_v_digest_from (xap_v_digest_from + xap_v_digest_len body) f)
-  | None => xap_hashin_sign f
+  | Some (body, _) => Ok (zslice xap_v_digest_from (xap_v_digest_from + xap_v_digest_len body) g)
+  | None => Err E_NOTSIGNED
   end.
-Definition xap_wf (f : bytes) : bool :=
-  all_bytes f && match xap_vparse f with Ok None => true | _ => false end && is_ok (xap_digest f).
 Definition xap_blob_wf (b : bytes) : bool := all_bytes b && (zlen b + 8 <? 2 ^ 32).
 
 (* ================================================================== XAP: the specification side *)
@@ -376,3 +401,20 @@ Definition xap_protected (g : bytes) : bytes :=
   let n := zlen g in
   let start := n - 10 - le_dec (zdrop (n - 4) g) in
   if start <? 0 then g else ztake start g ++ zslice (start + 4) (n - 6) g ++ zdrop (n - 4) g.
+
+(* ================================================================== XAP: the explicit, decidable domain of the laws *)
+(* when the end record asks for ZIP64, the ZIP64 end-of-directory record lies inside the zip part (not in a signature trailer) *)
+Definition xap_zip64_inside (f : bytes) : bool :=
+  let size := zip_tar_find_size (zlen f) (xap_tf_trailer f) in
+  match zip_window f size with
+  | Ok w =>
+      let loc := dec_struct ziploc_widths (ztake ziploc_size w) in
+      let en := dec_struct zipend_widths (zdrop ziploc_size w) in
+      if zip_needs_zip64 (fld zipend_ix_TotalCDCount en) (fld zipend_ix_CDSize en) (fld zipend_ix_CDOffset en)
+      then to_i64 (fld ziploc_ix_Offset loc) + zip_directory64EndLen <=? size else true
+  | _ => true
+  end.
+(* unsigned zips AND already signed XAP files: bytes, shorter than 4 GiB, accepted by the signer's digest code, the
+   specification's trailer split is defined (a trailer, if any, is consistent) *)
+Definition xap_wf (f : bytes) : bool :=
+  all_bytes f && (zlen f <? 2 ^ 32) && is_ok (xap_digest f) && xap_zip64_inside f && is_ok (xap_spec_split f).
